@@ -148,19 +148,16 @@ Theorem C01_source_hill :
 Proof. exact source_hill_closed_forms. Qed.
 
 (* ... and the plain interface's four per-reaction loops (ModelCSimInterface.compute_*propensities) regenerated from simulator.pyx
-   (Gen/IfaceGen.v, tools/tr_iface.py): with the virtual call on the r-th propensity object instantiated by the model's evaluator of
-   the r-th propensity, each loop overwrites the caller's array with the hand model's compute_plain, whatever the array held. *)
+   (Gen/IfaceGen.v, tools/tr_iface.py): with the virtual call on the r-th propensity object instantiated, BY METHOD NAME (oracle3 / oracle4:
+   get_propensity -> Det, get_volume_propensity -> Vol, get_stochastic_propensity -> Stoch, get_stochastic_volume_propensity -> StochVol), by the
+   model's evaluator of the r-th propensity, each loop overwrites the caller's array with the hand model's compute_plain, whatever the array held. *)
 Theorem C01_source_interface_plain :
   forall F (A : Arith F) (si : simif F) (x dest : list F) (V t : F),
   length dest = length (si_props si) ->
-  gen_ModelCSimInterface_compute_propensities (fun r x p t => prop_eval A (nthp si r) Det x p V t) A (iface_obj si) x dest t
-    = compute_plain A si Det x V t /\
-  gen_ModelCSimInterface_compute_volume_propensities (fun r x p V t => prop_eval A (nthp si r) Vol x p V t) A (iface_obj si) x dest V t
-    = compute_plain A si Vol x V t /\
-  gen_ModelCSimInterface_compute_stochastic_propensities (fun r x p t => prop_eval A (nthp si r) Stoch x p V t) A (iface_obj si) x dest t
-    = compute_plain A si Stoch x V t /\
-  gen_ModelCSimInterface_compute_stochastic_volume_propensities (fun r x p V t => prop_eval A (nthp si r) StochVol x p V t) A (iface_obj si) x dest V t
-    = compute_plain A si StochVol x V t.
+  gen_ModelCSimInterface_compute_propensities (oracle3 A si V) A (iface_obj si) x dest t = compute_plain A si Det x V t /\
+  gen_ModelCSimInterface_compute_volume_propensities (oracle4 A si) A (iface_obj si) x dest V t = compute_plain A si Vol x V t /\
+  gen_ModelCSimInterface_compute_stochastic_propensities (oracle3 A si V) A (iface_obj si) x dest t = compute_plain A si Stoch x V t /\
+  gen_ModelCSimInterface_compute_stochastic_volume_propensities (oracle4 A si) A (iface_obj si) x dest V t = compute_plain A si StochVol x V t.
 Proof. exact @tie_iface_plain. Qed.
 
 (* Non-vacuity of the regenerated definitions: the same numbers as C01_example, computed by the source's own loops. *)
